@@ -632,3 +632,81 @@ theorem rec_completes (hg : c.guarded = true) (safe : h.CallbackSafe) :
 end complete
 
 end Cello.Heap
+
+/-! ### the three phases of `GC_Mark` with the C call structure agree with `gcMark` -/
+
+namespace Cello.Heap
+section phases
+variable {σ : Type} (S : MarkSet σ) (c : Cfg) (h : Heap)
+
+theorem tlsPhase_agree (hg : c.guarded = true) (ht : c.tlsCallback = true) (d : Nat) (thread : Obj) (m m' : σ)
+    (hok : tlsPhase c h (level S c h d) thread m = .ok m') : m' = dfs S c h (tlsWords c thread) m := by
+  unfold tlsPhase at hok
+  simp only [tlsWords, ht, if_true, viaMark_eq]
+  obtain ⟨ihI, ihR⟩ := level_agree S c h hg d
+  by_cases hm : c.hasMark thread.ty = true
+  · simp only [hm, if_true, ht] at hok ⊢
+    refine markInst_agree S c h _ _ ihR ?_ thread m m' hok
+    intro w m1 m2 hcb
+    simp only [callback, hg, if_true] at hcb
+    split at hcb
+    · exact ihI w m1 m2 hcb
+    · cases hcb
+  · simp only [hm] at hok ⊢
+    have hmm : m' = m := by simpa using hok.symm
+    simp [hmm, dfs_nil]
+
+theorem rootPhase_agree (hg : c.guarded = true) (wf : h.WF) (d : Nat) (m m' : σ)
+    (hok : rootPhase S h (level S c h d) m = .ok m') : m' = dfs S c h (rootAddrs h) m := by
+  unfold rootPhase at hok
+  obtain ⟨_, ihR⟩ := level_agree S c h hg d
+  have := foldRes_agree S c h _ (fun a => [a]) ?_ (rootAddrs h) m m' hok
+  · simpa using this
+  · intro a m1 m2 hf
+    cases hl : h.lookup a with
+    | none =>
+      rw [hl] at hf
+      have hmm : m2 = m1 := by simpa using hf.symm
+      have : ¬ (h.accepts a = true ∧ S.mem a m1 = false) := by simp [accepts_eq, hl]
+      rw [hmm, dfs_cons_neg S c h a [] m1 this, dfs_nil]
+    | some e =>
+      rw [hl] at hf
+      simp only at hf
+      cases hmem : S.mem a m1 with
+      | true =>
+        simp only [hmem, if_true] at hf
+        have hmm : m2 = m1 := by simpa using hf.symm
+        have : ¬ (h.accepts a = true ∧ S.mem a m1 = false) := by simp [hmem]
+        rw [hmm, dfs_cons_neg S c h a [] m1 this, dfs_nil]
+      | false =>
+        simp only [hmem] at hf
+        have hacc : h.accepts a = true ∧ S.mem a m1 = false :=
+          ⟨accepts_of_registered wf (by simp [hl]), hmem⟩
+        rw [dfs_cons_pos S c h a [] m1 hacc, fieldsAt_lookup hl, List.append_nil]
+        exact ihR e.obj _ m2 (by simpa using hf)
+
+/-- whenever `GC_Mark` with the call structure of GC.c completes, it has set exactly the bits of `gcMark` -/
+theorem gcMarkRec_agree (hg : c.guarded = true) (ht : c.tlsCallback = true) (wf : h.WF) (d : Nat) (thread : Obj)
+    (stack : List Word) (m' : σ) (hok : gcMarkRec S c h d thread stack = .ok m') : m' = gcMark S c h thread stack := by
+  unfold gcMarkRec at hok
+  simp only at hok
+  cases h1 : tlsPhase c h (level S c h d) thread S.empty with
+  | deep => rw [h1] at hok; cases hok
+  | ub => rw [h1] at hok; cases hok
+  | ok m1 =>
+    rw [h1] at hok
+    simp only [Res.bind] at hok
+    cases h2 : rootPhase S h (level S c h d) m1 with
+    | deep => rw [h2] at hok; cases hok
+    | ub => rw [h2] at hok; cases hok
+    | ok m2 =>
+      rw [h2] at hok
+      simp only [Res.bind] at hok
+      have e1 := tlsPhase_agree S c h hg ht d thread _ m1 h1
+      have e2 := rootPhase_agree S c h hg wf d m1 m2 h2
+      have e3 := rec_items_agree S c h hg d stack m2 m' hok
+      simp only [gcMark]
+      rw [e3, e2, e1]
+
+end phases
+end Cello.Heap
